@@ -814,10 +814,10 @@ func genPreq(g *hx.Gen, n int) {
 }
 
 func gen(g *hx.Gen) {
-	genResp(g, g.Count(1500, 120000))
-	genCr(g, g.Count(800, 30000))
+	genResp(g, g.Count(1500, 40000))
+	genCr(g, g.Count(800, 20000))
 	genReq(g, g.Count(200, 5000))
-	genPreq(g, g.Count(500, 40000))
+	genPreq(g, g.Count(500, 20000))
 }
 
 func main() { hx.Main(hx.Harness{Gen: gen, Exec: exec}) }
